@@ -269,11 +269,12 @@ Definition coins_target (t : tx) : option (list N) :=
   | KWithdraw => Some (t_from t)
   end.
 
-(** Coins.ExecLocal: its own wrapper, which does not look at the receipt *)
+(** Coins.ExecLocal: its own wrapper; nothing for a failed tx (receipt other than ExecOk),
+    the same test as callLocal below *)
 Definition coins_local_tx (t : tx) (vw : db) : db * list kvw :=
   match coins_target t with
   | None => (vw, [])
-  | Some a => bump (coins_key a) (t_amount t) vw
+  | Some a => if t_rty t =? ExecOk then bump (coins_key a) (t_amount t) vw else (vw, [])
   end.
 
 (** DriverBase.ExecDelLocal -> callLocal: CheckReceiptExecOk, nothing for a failed tx *)
